@@ -12,7 +12,7 @@ pub fn run(tier: &str) -> Result<Report, String> {
     let mut rep = Report::new("C13", tier, "model_checking");
     std_assumptions(&mut rep);
     let nets = core_nets(3)?;
-    let m = if tier == "quick" { 4 } else { 5 };
+    let m = if tier == "quick" { 5 } else { 6 };
     let mut slices = vec![];
     for b in &nets {
         if tier == "quick" && b.n > 2 && b.name != "cyc3" {
@@ -22,6 +22,8 @@ pub fn run(tier: &str) -> Result<Report, String> {
         let ctx = NetCtx::new(b.clone(), Labels::default(), "none");
         let mut alpha = Alphabet::plain(ctx.nprops(), 2);
         alpha.bi = ALL_BI.to_vec();
+        // both literal constants (a literal False operand is a shape of its own: `a EW False` = EG a)
+        alpha.consts = vec![true, false];
         let mut g = Gen::new(alpha.clone());
         let fs: Vec<_> = g.closed_up_to(m).into_iter().filter(|f| f.has_op_bi(Bi::EW) || f.has_op_bi(Bi::AW)).collect();
         if rep.samples.len() < 5 {
